@@ -50,7 +50,27 @@ pub fn run_case(c: &Case, r: &mut Report) {
     journal(c);
     match c {
         Case::Token { p, layer, default_parser, key, token, footer, ia, class } => {
-            let out = if *layer == Layer::Batteries && *default_parser {
+            // "cfg=N" at the end of the class: the upper-layer parser is configured with an expectation / validators
+            let pcfg: usize = class.rsplit("cfg=").next().filter(|_| class.contains("cfg=")).and_then(|x| x.parse().ok()).unwrap_or(0);
+            let out = if pcfg > 0 && *layer != Layer::Core {
+                let mut cfg = ParserCfg { footer: footer.clone(), assertion: ia.clone(), default_parser: *default_parser, ..Default::default() };
+                match pcfg {
+                    1 => cfg.expected = vec![Claim::Aud("customers".into())],
+                    2 => cfg.validators = vec![VSpec { claim: Claim::Custom("k".into(), json!("dummy")), behave: VBehave::Accept, reg: VReg::ValidateClaim }],
+                    3 => cfg.validators = vec![VSpec { claim: Claim::Custom("absent".into(), json!("dummy")), behave: VBehave::Accept, reg: if *layer == Layer::Generic { VReg::ExtendOnly } else { VReg::ValidateClaim } }],
+                    _ => {
+                        cfg.expected = vec![Claim::Custom("a".into(), json!(1))];
+                        cfg.validators = vec![VSpec { claim: Claim::Sub("dummy".into()), behave: VBehave::AcceptIfPresent, reg: VReg::ValidateClaim }];
+                        cfg.expected_via_extend = *layer == Layer::Generic;
+                    }
+                }
+                let o = if *layer == Layer::Generic { generic_open(*p, key, token, &cfg).0 } else { batteries_open(*p, key, token, &cfg).0 };
+                match o {
+                    Out::Ok(v) => Out::Ok(v.to_string()),
+                    Out::Err(e) => Out::Err(e),
+                    Out::Panic(x) => Out::Panic(x),
+                }
+            } else if *layer == Layer::Batteries && *default_parser {
                 let cfg = ParserCfg { footer: footer.clone(), assertion: ia.clone(), default_parser: true, ..Default::default() };
                 match batteries_open(*p, key, token, &cfg).0 {
                     Out::Ok(v) => Out::Ok(v.to_string()),
@@ -280,7 +300,14 @@ pub fn build_cases(tier: &str, seed: u64, pools: &Pools) -> Vec<Case> {
         //      validators, date arithmetic) runs on authenticated but arbitrary content
         for payload in hostile_payloads(&mut rng, thorough) {
             if let Some(t) = authentic(p, &key, &mut rng, &payload, None, None) {
-                push_all_layers(&mut cases, p, &key, t, None, None, "authentic+hostile-payload");
+                push_all_layers(&mut cases, p, &key, t.clone(), None, None, "authentic+hostile-payload");
+                // ... and through parsers that carry an expectation or validators (check_claim, validate_claim,
+                // extend_validation_claims, extend_check_claims): their claim lookups run on the same arbitrary content
+                let n = cases.len();
+                let cfgn = 1 + n % 4;
+                for (layer, dp) in [(Layer::Generic, false), (Layer::Batteries, n % 2 == 0)] {
+                    cases.push(Case::Token { p, layer, default_parser: dp, key: key.clone(), token: t.clone(), footer: None, ia: None, class: format!("authentic+hostile-payload+configured-parser cfg={}", cfgn) });
+                }
             }
         }
         // (4) invalid base64 / padding / odd structure after a correct header
@@ -420,4 +447,4 @@ pub fn replay(case: &Value) -> Report {
     r
 }
 
-pub const RULE: &str = "cases = for each of the 8 protocols x 4 entry points (core, generic, batteries new(), batteries default()): the correct header followed by base64url of EVERY decoded length 0..=400 (thorough 0..=2000) with zero/random/authentic-prefix fill, with and without a matching footer segment; random larger payloads; every character prefix and several extensions of authentic tokens; multi-byte characters substituted and inserted at each of the first 14 positions (so that byte offsets near the header length are not character boundaries); invalid/padded/non-alphabet base64; 0-6 segment strings of arbitrary Unicode; foreign and relabelled tokens; large inputs; expected footers/assertions of 64..70000 bytes with 3- and 4-segment input; AUTHENTIC tokens carrying hostile payloads (non-JSON, non-object, extreme/malformed exp/nbf/iat incl. the edges of year 0 and 9999 with offsets, leap seconds, huge numbers, nesting to depth 5000, 100 KB strings, 2000 members); garbage public keys; and Key::<N>::try_from(&str) for N in {1,2,24,32,48,49,56,64} on hex strings of every length 0..=200 plus non-hex text. All with VALID key material so that parsing proceeds past key handling. Oracle: any Ok/Err is fine, a panic or process death is the violation. distinct_nontrivial = distinct (entry point, case class, outcome variant) tuples whose input got past the segment-count and header checks";
+pub const RULE: &str = "cases = for each of the 8 protocols x 4 entry points (core, generic, batteries new(), batteries default()): the correct header followed by base64url of EVERY decoded length 0..=400 (thorough 0..=2000) with zero/random/authentic-prefix fill, with and without a matching footer segment; random larger payloads; every character prefix and several extensions of authentic tokens; multi-byte characters substituted and inserted at each of the first 14 positions (so that byte offsets near the header length are not character boundaries); invalid/padded/non-alphabet base64; 0-6 segment strings of arbitrary Unicode; foreign and relabelled tokens; large inputs; expected footers/assertions of 64..70000 bytes with 3- and 4-segment input; AUTHENTIC tokens carrying hostile payloads (non-JSON, non-object, extreme/malformed exp/nbf/iat incl. the edges of year 0 and 9999 with offsets, leap seconds, huge numbers, nesting to depth 5000, 100 KB strings, 2000 members), each also through upper-layer parsers configured with check_claim / validate_claim / extend_validation_claims / extend_check_claims for present and absent keys; garbage public keys; and Key::<N>::try_from(&str) for N in {1,2,24,32,48,49,56,64} on hex strings of every length 0..=200 plus non-hex text. All with VALID key material so that parsing proceeds past key handling. Oracle: any Ok/Err is fine, a panic or process death is the violation. distinct_nontrivial = distinct (entry point, case class, outcome variant) tuples whose input got past the segment-count and header checks";
